@@ -455,6 +455,17 @@ func c07GenCase(c *Case, group string, cat *c07Catalogue, nShifts int) {
 			c.Count("cases_with_two_constructs_in_one_scalar", 1)
 		}
 	}
+	if base.kind == "runner-label-via-matrix" || base.kind == "action-missing-input" {
+		c.SetAdd("indirect_sites", siteName+"|"+base.styleName())
+		c.SetAdd("indirect_sites_holder", fmt.Sprintf("%s|flow=%v", siteName, base.inFlow))
+		msgClass := "unknown-label"
+		if strings.Contains(obs0[0].exp.msg, "conflicts with") {
+			msgClass = "conflicting-label"
+		} else if strings.Contains(obs0[0].exp.msg, "missing input") {
+			msgClass = "missing-input"
+		}
+		c.SetAdd("indirect_messages", siteName+"|"+msgClass)
+	}
 	if base.info["lead"] > 0 {
 		c.SetAdd("blanks_inside_quotes", fmt.Sprintf("%s|%d", base.mode, base.info["lead"]))
 		c.SetAdd("blanks_inside_quotes_modes", base.mode)
@@ -1275,6 +1286,23 @@ func runC07(r *Run) {
 	}
 	if r.Counter("neighbour_positions_confirmed") < compared/2 {
 		r.Inconclusive(fmt.Sprintf("no-interference oracle confirmed only %d positions for %d cases", r.Counter("neighbour_positions_confirmed"), compared))
+	}
+	for _, vs := range []string{"matrix-label.row", "matrix-label.include", "uses.missing-required-input"} {
+		for _, st := range []string{"plain", "single", "double"} {
+			if !r.SetHas("indirect_sites", vs+"|"+st) {
+				r.Inconclusive("diagnostic reported at a node other than the one that triggers the check never compared: " + vs + " / " + st)
+			}
+		}
+	}
+	for _, vs := range []string{"matrix-label.row|flow=true", "matrix-label.row|flow=false", "matrix-label.include|flow=true", "matrix-label.include|flow=false"} {
+		if !r.SetHas("indirect_sites_holder", vs) {
+			r.Inconclusive("label reached through the matrix never compared in holder style " + vs)
+		}
+	}
+	for _, vs := range []string{"matrix-label.row|unknown-label", "matrix-label.row|conflicting-label", "matrix-label.include|unknown-label", "matrix-label.include|conflicting-label"} {
+		if !r.SetHas("indirect_messages", vs) {
+			r.Inconclusive("label reached through the matrix never compared: " + vs)
+		}
 	}
 	for _, g := range []string{"expr", "key", "value", "glob"} {
 		for _, cl := range []string{"anchored", "tagged", "anchored+tagged"} {
